@@ -9,8 +9,7 @@ after commit 80c63d2 (`rename_variables` skips the two terminal nodes).
 Every `assert!`, `panic!`, out-of-bounds index and `unreachable!()` is a `panic` outcome; the `None`
 of `transfer_from` is the `err` outcome. Core only.
 -/
-namespace B
-
+namespace B.Ren
 /-- insertion into a strictly increasing list, no duplicates -/
 def insertU (x : Nat) : List Nat → List Nat
   | [] => [x]
@@ -31,12 +30,16 @@ def chainLt : List Nat → Bool
 def mapVars (g : Nat → Nat) (A : Arr) : Arr :=
   A.mapIdx fun i nd => if i < 2 then nd else { nd with var := g nd.var }
 
+/-- `self.0[0].var = new_value; if self.0.len() > 1 { self.0[1].var = new_value }` -/
+def setTerm (nv : Nat) (A : Arr) : Arr :=
+  A.mapIdx fun i nd => if i < 2 then { nd with var := nv } else nd
+
 /-- `Bdd::set_num_vars(new_value)`. (`self.0[0]` on an empty vector would be an index panic.) -/
 def setNumVars (A : Arr) (nv : Nat) : Outcome Arr :=
   if A.size = 0 then .panic "index out of bounds: the Bdd has no node"
   else if (A.toList.drop 2).any (fun nd => decide (nv ≤ nd.var)) then
     .panic "BDD contains a variable which is invalid with the new variable count"
-  else .ok (A.mapIdx fun i nd => if i < 2 then { nd with var := nv } else nd)
+  else .ok (setTerm nv A)
 
 /-- a `HashMap<BddVariable, BddVariable>` seen through `get` -/
 abbrev VarMap := Nat → Option Nat
@@ -110,4 +113,4 @@ def transferFrom (tgt : List String) (A : Arr) (src : List String) : Outcome Arr
         | none => .panic "unreachable!()"
         | some nodes => .ok (mkTrue tgt.length ++ nodes.toArray)
 
-end B
+end B.Ren
